@@ -230,6 +230,24 @@ func c13Run(c *core.Ctx) {
 			if ok {
 				viol("Bii", kd, d, open, def, len(toks))
 			}
+			// the same with the last statement's semicolon missing as well (end of input ends it)
+			if end-r-1 >= 0 && toks[end-r-1].OptSemi {
+				open2 := gen.Render(toks[:end-r-1], nil, nil)
+				c.Inc("inputs")
+				c.Inc("open_block_cases")
+				kd, d, ok := c13Same(open2, Mode{Tolerant: true}, def, Mode{})
+				if ok {
+					viol("Bii", kd, d, open2, def, len(toks))
+				}
+				// and with every statement on its own line, no semicolons at all
+				open3 := gen.Render(toks[:end-r-1], nil, func(int) int { return 1 })
+				c.Inc("inputs")
+				c.Inc("open_block_cases")
+				kd, d, ok = c13Same(open3, Mode{Tolerant: true}, def, Mode{})
+				if ok {
+					viol("Bii", kd, d, open3, def, len(toks))
+				}
+			}
 		}
 	})
 }
